@@ -519,6 +519,12 @@ func (g *vcgen) loopHead(h *ssa.BasicBlock, phiInit map[*ssa.Phi]string) {
 	sig := g.loopSig[h]
 	if g.fc != nil {
 		g.loopInvs[h] = g.fc.Loops[sig]
+		if _, ok := g.fc.Loops[sig]; !ok && len(g.loopBody) == 1 && len(g.fc.Loops) == 1 {
+			// the only loop of the function against the only loop contract: the condition text was edited
+			for _, inv := range g.fc.Loops {
+				g.loopInvs[h] = inv
+			}
+		}
 	}
 	// 1. invariant holds on entry
 	env := g.loopEnv(h, phiInit, g.st)
